@@ -1,10 +1,468 @@
 package main
 
-// tryReplay attempts to turn the solver's counterexample for a failed obligation
-// into an input of the real code and to run it (go test -overlay). It returns
-// true iff the failure was reproduced on the real code. rec is extended with
-// what was tried.
+// Replay of a failed obligation against the real code (DESIGN.md 1.6, as built).
+//
+// Two routes, tried in this order:
+//  1. witness: known_findings.json names, per finding, an in-package witness test (under
+//     /verif/witness). When a failing obligation belongs to a recorded finding (the defect is
+//     back, or was never fixed), that test is run against the tree under check with
+//     `go test -overlay` (nothing is written to the repository). A failing test is the replay.
+//  2. unit: for safety obligations (bounds, slice, nil, div0, ...) of a plain function whose
+//     parameters are strings, byte slices, string slices, integers or booleans, the solver's
+//     model is read back with (get-value ...), turned into Go literals, and the real function is
+//     called with them under recover(); a panic is the replay.
+//
+// Anything else is reported with the suffix no-failing-input-found (the failed obligation and the
+// solver output are in the replay file).
+
+import (
+	"encoding/json"
+	"fmt"
+	"go/types"
+	"os"
+	"os/exec"
+	"path/filepath"
+	"regexp"
+	"strconv"
+	"strings"
+
+	"golang.org/x/tools/go/ssa"
+)
+
+func goEnv() []string {
+	return append(os.Environ(), "GOFLAGS=-mod=mod", "GOPROXY=off", "GOSUMDB=off", "GOTOOLCHAIN=local",
+		"TEST_BASEPORT=23900", "TEST_BASEPORT_SMTP=27900")
+}
+
+// runOverlayTest injects test files into pkgDir of repo and runs the named test. It returns
+// (ran, failed, output).
+func runOverlayTest(repo, pkgRel string, files []string, testName string) (bool, bool, string) {
+	tmp, err := os.MkdirTemp("", "replay-")
+	if err != nil {
+		return false, false, err.Error()
+	}
+	defer os.RemoveAll(tmp)
+	repl := map[string]string{}
+	for _, f := range files {
+		abs, _ := filepath.Abs(f)
+		repl[filepath.Join(repo, pkgRel, "zz_verif_"+filepath.Base(f))] = abs
+	}
+	ov, _ := json.Marshal(map[string]interface{}{"Replace": repl})
+	ovPath := filepath.Join(tmp, "ov.json")
+	os.WriteFile(ovPath, ov, 0o644)
+	cmd := exec.Command("go", "test", "-overlay", ovPath, "-vet=off", "-count=1", "-timeout", "120s", "-run", "^"+testName+"$", ".")
+	cmd.Dir = filepath.Join(repo, pkgRel)
+	cmd.Env = append(goEnv(), "GOCACHE="+filepath.Join(tmp, "gocache"))
+	out, err := cmd.CombinedOutput()
+	s := string(out)
+	if strings.Contains(s, "[build failed]") || strings.Contains(s, "no test files") || strings.Contains(s, "no tests to run") {
+		return false, false, s
+	}
+	return true, err != nil, s
+}
+
 func tryReplay(c *Ctx, repo, verif, prop string, o *Obl, rec map[string]interface{}) bool {
-	rec["replay"] = "no replay adapter for this obligation kind"
+	// 1. witness of a recorded finding
+	var known []map[string]interface{}
+	readJSON(filepath.Join(verif, "known_findings.json"), &known)
+	base := groupName(o.Name)
+	for _, k := range known {
+		if k["property"] != prop {
+			continue
+		}
+		obl, _ := k["obligation"].(string)
+		if !strings.HasPrefix(obl, base) && !strings.HasPrefix(base, groupName(strings.Fields(obl + " x")[0])) {
+			continue
+		}
+		test, _ := k["witness_test"].(string)
+		if test == "" {
+			continue
+		}
+		var files []string
+		if fs, ok := k["witness_files"].([]interface{}); ok {
+			for _, f := range fs {
+				files = append(files, filepath.Join(verif, f.(string)))
+			}
+		}
+		pkg, _ := k["witness_pkg"].(string)
+		ran, failed, out := runOverlayTest(repo, pkg, files, test)
+		rec["replay"] = map[string]interface{}{"route": "witness test of a recorded finding", "finding": k["what"], "test": test,
+			"files": k["witness_files"], "ran": ran, "reproduced": failed, "output": truncate(tailLines(out, 30), 4000)}
+		if ran && failed {
+			return true
+		}
+	}
+	// 2. unit adapter
+	if o.Safety && o.g != nil {
+		if ok := unitReplay(c, repo, o, rec); ok {
+			return true
+		}
+	}
+	if _, has := rec["replay"]; !has {
+		rec["replay"] = "no replay adapter applies to this obligation (kind " + o.Kind + ")"
+	}
 	return false
+}
+
+func tailLines(s string, n int) string {
+	ls := strings.Split(strings.TrimRight(s, "\n"), "\n")
+	if len(ls) > n {
+		ls = ls[len(ls)-n:]
+	}
+	return strings.Join(ls, "\n")
+}
+
+// ---------------------------------------------------------------------------
+// unit adapter
+
+type unitParam struct {
+	name string
+	typ  types.Type
+	kind string // string, bytes, strings, int, bool
+}
+
+func unitSignature(fn *ssa.Function) ([]unitParam, bool) {
+	if fn.Signature.Recv() != nil || fn.Parent() != nil || len(fn.FreeVars) > 0 {
+		return nil, false
+	}
+	var ps []unitParam
+	for _, p := range fn.Params {
+		up := unitParam{name: p.Name(), typ: p.Type()}
+		switch u := p.Type().Underlying().(type) {
+		case *types.Basic:
+			switch {
+			case u.Info()&types.IsString != 0:
+				up.kind = "string"
+			case u.Info()&types.IsInteger != 0:
+				up.kind = "int"
+			case u.Info()&types.IsBoolean != 0:
+				up.kind = "bool"
+			default:
+				return nil, false
+			}
+		case *types.Slice:
+			eb, ok := u.Elem().Underlying().(*types.Basic)
+			if !ok {
+				return nil, false
+			}
+			if eb.Kind() == types.Uint8 {
+				up.kind = "bytes"
+			} else if eb.Info()&types.IsString != 0 {
+				up.kind = "strings"
+			} else {
+				return nil, false
+			}
+		default:
+			return nil, false
+		}
+		ps = append(ps, up)
+	}
+	return ps, true
+}
+
+var reValue = regexp.MustCompile(`\(\s*(\(.*?\)|[^\s()]+)\s+(\(- \d+\)|-?\d+|true|false)\)`)
+
+// getValues runs the query with a (get-value ...) request and returns term -> value.
+func getValues(query string, terms []string, work string, weaken bool) (map[string]string, bool) {
+	q := strings.Replace(query, "(get-model)\n", "", 1)
+	if weaken {
+		var keep []string
+		for _, l := range strings.Split(q, "\n") {
+			if strings.Contains(l, "(forall ") {
+				continue
+			}
+			keep = append(keep, l)
+		}
+		q = strings.Join(keep, "\n")
+	}
+	q += "(get-value (" + strings.Join(terms, " ") + "))\n"
+	file := filepath.Join(work, "replay.smt2")
+	os.MkdirAll(work, 0o755)
+	os.WriteFile(file, []byte(q), 0o644)
+	out, _ := exec.Command("z3-new", "-T:10", file).CombinedOutput()
+	s := string(out)
+	if !strings.HasPrefix(strings.TrimSpace(s), "sat") {
+		return nil, false
+	}
+	vals := map[string]string{}
+	body := s[strings.Index(s, "\n")+1:]
+	// parse pairs "(term value)" by scanning balanced parentheses
+	i := strings.Index(body, "(")
+	depth := 0
+	start := -1
+	for ; i >= 0 && i < len(body); i++ {
+		switch body[i] {
+		case '(':
+			depth++
+			if depth == 2 {
+				start = i
+			}
+		case ')':
+			if depth == 2 && start >= 0 {
+				pair := body[start+1 : i]
+				// value is the last token (possibly "(- n)")
+				pair = strings.TrimSpace(pair)
+				var term, val string
+				if strings.HasSuffix(pair, ")") && strings.Contains(pair, "(- ") && strings.LastIndex(pair, "(- ") > 0 {
+					k := strings.LastIndex(pair, "(- ")
+					term, val = strings.TrimSpace(pair[:k]), "-"+strings.TrimSuffix(strings.TrimSpace(pair[k+3:]), ")")
+				} else {
+					k := strings.LastIndexAny(pair, " \n\t")
+					if k > 0 {
+						term, val = strings.TrimSpace(pair[:k]), strings.TrimSpace(pair[k+1:])
+					}
+				}
+				if term != "" {
+					vals[strings.Join(strings.Fields(term), " ")] = val
+				}
+				start = -1
+			}
+			depth--
+		}
+	}
+	return vals, true
+}
+
+func norm(t string) string { return strings.Join(strings.Fields(t), " ") }
+
+func unitReplay(c *Ctx, repo string, o *Obl, rec map[string]interface{}) bool {
+	g := o.g
+	fn := g.fn
+	ps, ok := unitSignature(fn)
+	if !ok {
+		return false
+	}
+	query := o.Query(c.Spec, false)
+	work, _ := os.MkdirTemp("", "replay-unit-")
+	defer os.RemoveAll(work)
+	byteHeap := "A.byte@0"
+	strHeap := "A.string@0"
+	// round 1: scalars and lengths
+	var terms []string
+	for _, p := range ps {
+		sym := "p." + sym(p.name)
+		switch p.kind {
+		case "string":
+			terms = append(terms, "(slen "+sym+")")
+		case "bytes", "strings":
+			terms = append(terms, "(sl_len "+sym+")")
+		default:
+			terms = append(terms, sym)
+		}
+	}
+	weaken := false
+	vals, sat := getValues(query, terms, work, false)
+	if !sat {
+		weaken = true
+		vals, sat = getValues(query, terms, work, true)
+	}
+	if !sat {
+		rec["replay"] = "unit adapter: the solver gave no model for this obligation"
+		return false
+	}
+	lens := map[string]int{}
+	for _, p := range ps {
+		sym := "p." + sym(p.name)
+		switch p.kind {
+		case "string":
+			n, _ := strconv.Atoi(vals[norm("(slen "+sym+")")])
+			lens[p.name] = n
+		case "bytes", "strings":
+			n, _ := strconv.Atoi(vals[norm("(sl_len "+sym+")")])
+			lens[p.name] = n
+		}
+		if lens[p.name] > 64 || lens[p.name] < 0 {
+			rec["replay"] = "unit adapter: model too large to replay"
+			return false
+		}
+	}
+	// round 2: elements (the lengths are pinned so that the second model agrees with the first)
+	var pins []string
+	terms = nil
+	for _, p := range ps {
+		sym := "p." + sym(p.name)
+		switch p.kind {
+		case "string":
+			pins = append(pins, fmt.Sprintf("(assert (= (slen %s) %d))", sym, lens[p.name]))
+			for i := 0; i < lens[p.name]; i++ {
+				terms = append(terms, fmt.Sprintf("(sat %s %d)", sym, i))
+			}
+		case "bytes":
+			pins = append(pins, fmt.Sprintf("(assert (= (sl_len %s) %d))", sym, lens[p.name]))
+			for i := 0; i < lens[p.name]; i++ {
+				terms = append(terms, fmt.Sprintf("(select (select %s (sl_arr %s)) (+ (sl_off %s) %d))", byteHeap, sym, sym, i))
+			}
+		case "strings":
+			pins = append(pins, fmt.Sprintf("(assert (= (sl_len %s) %d))", sym, lens[p.name]))
+			for i := 0; i < lens[p.name]; i++ {
+				terms = append(terms, fmt.Sprintf("(slen (select (select %s (sl_arr %s)) (+ (sl_off %s) %d)))", strHeap, sym, sym, i))
+			}
+		default:
+			if v, ok := vals[sym]; ok {
+				pins = append(pins, fmt.Sprintf("(assert (= %s %s))", sym, smtLit(v)))
+			}
+		}
+	}
+	elems := map[string]string{}
+	if len(terms) > 0 {
+		q2 := strings.Replace(query, "(check-sat)", strings.Join(pins, "\n")+"\n(check-sat)", 1)
+		ev, ok := getValues(q2, terms, work, weaken)
+		if !ok {
+			rec["replay"] = "unit adapter: no model for the element values"
+			return false
+		}
+		elems = ev
+	}
+	// build Go literals
+	var args []string
+	inputs := map[string]interface{}{}
+	for _, p := range ps {
+		sym := "p." + sym(p.name)
+		tname := types.TypeString(p.typ, func(pk *types.Package) string {
+			if pk == fn.Pkg.Pkg {
+				return ""
+			}
+			return pk.Name()
+		})
+		switch p.kind {
+		case "string":
+			b := make([]byte, lens[p.name])
+			for i := range b {
+				v, _ := strconv.Atoi(elems[norm(fmt.Sprintf("(sat %s %d)", sym, i))])
+				b[i] = byte(v)
+			}
+			args = append(args, fmt.Sprintf("%s(%q)", tname, string(b)))
+			inputs[p.name] = string(b)
+		case "bytes":
+			b := make([]byte, lens[p.name])
+			for i := range b {
+				v, _ := strconv.Atoi(elems[norm(fmt.Sprintf("(select (select %s (sl_arr %s)) (+ (sl_off %s) %d))", byteHeap, sym, sym, i))])
+				b[i] = byte(v)
+			}
+			args = append(args, fmt.Sprintf("[]byte(%q)", string(b)))
+			inputs[p.name] = string(b)
+		case "strings":
+			var el []string
+			for i := 0; i < lens[p.name]; i++ {
+				n, _ := strconv.Atoi(elems[norm(fmt.Sprintf("(slen (select (select %s (sl_arr %s)) (+ (sl_off %s) %d)))", strHeap, sym, sym, i))])
+				if n < 0 || n > 64 {
+					n = 0
+				}
+				el = append(el, strconv.Quote(strings.Repeat("a", n)))
+			}
+			args = append(args, "[]string{"+strings.Join(el, ", ")+"}")
+			inputs[p.name] = el
+		case "int":
+			v := vals[sym]
+			args = append(args, fmt.Sprintf("%s(%s)", tname, v))
+			inputs[p.name] = v
+		case "bool":
+			args = append(args, vals[sym])
+			inputs[p.name] = vals[sym]
+		}
+	}
+	pkgName := fn.Pkg.Pkg.Name()
+	rel, _ := filepath.Rel(repoModule, fn.Pkg.Pkg.Path())
+	if fn.Pkg.Pkg.Path() == repoModule {
+		rel = "."
+	}
+	call := fn.Name() + "(" + strings.Join(args, ", ") + ")"
+	nres := fn.Signature.Results().Len()
+	lhs := ""
+	if nres > 0 {
+		lhs = strings.TrimSuffix(strings.Repeat("_, ", nres), ", ") + " = "
+	}
+	src := fmt.Sprintf(`package %s
+
+import "testing"
+
+// generated by goverif: replay of obligation %s
+func TestVerifReplayUnit(t *testing.T) {
+	defer func() {
+		if r := recover(); r != nil {
+			t.Fatalf("REPRODUCED: %%v", r)
+		}
+	}()
+	%s%s
+}
+`, pkgName, o.Name, lhs, call)
+	tf := filepath.Join(work, "unit_replay_test.go")
+	os.WriteFile(tf, []byte(src), 0o644)
+	ran, failed, out := runOverlayTest(repo, rel, []string{tf}, "TestVerifReplayUnit")
+	rec["replay"] = map[string]interface{}{"route": "unit: the real function called with the model's arguments under recover()", "call": call,
+		"inputs": inputs, "weakened_model_search": weaken, "ran": ran, "reproduced": failed && strings.Contains(out, "REPRODUCED"), "output": truncate(tailLines(out, 15), 3000), "test_source": src}
+	if ran && failed && strings.Contains(out, "REPRODUCED") {
+		return true
+	}
+	// The model is a counterexample of the modular VC (callees are abstracted by their contracts), so
+	// it need not fail at whole-program level. For a function of one string / []byte argument, search
+	// the neighbourhood: every string over a small alphabet up to length 5 (replay search only - the
+	// verdict is the failed obligation).
+	if len(ps) == 1 && (ps[0].kind == "string" || ps[0].kind == "bytes") {
+		conv := "%s"
+		if ps[0].kind == "bytes" {
+			conv = "[]byte(%s)"
+		} else {
+			tname := types.TypeString(ps[0].typ, func(pk *types.Package) string {
+				if pk == fn.Pkg.Pkg {
+					return ""
+				}
+				return pk.Name()
+			})
+			conv = tname + "(%s)"
+		}
+		src2 := fmt.Sprintf(`package %s
+
+import "testing"
+
+// generated by goverif: replay search for obligation %s
+func TestVerifReplaySearch(t *testing.T) {
+	alphabet := []byte("a;= \"\r\n")
+	var try func(s string) bool
+	try = func(s string) (bad bool) {
+		defer func() {
+			if r := recover(); r != nil {
+				t.Errorf("REPRODUCED with input %%q: %%v", s, r)
+				bad = true
+			}
+		}()
+		%s%s(%s)
+		return false
+	}
+	var rec func(prefix string, depth int) bool
+	rec = func(prefix string, depth int) bool {
+		if try(prefix) {
+			return true
+		}
+		if depth == 0 {
+			return false
+		}
+		for _, c := range alphabet {
+			if rec(prefix+string(c), depth-1) {
+				return true
+			}
+		}
+		return false
+	}
+	rec("", 5)
+}
+`, pkgName, o.Name, lhs, fn.Name(), fmt.Sprintf(conv, "s"))
+		tf2 := filepath.Join(work, "unit_search_test.go")
+		os.WriteFile(tf2, []byte(src2), 0o644)
+		ran2, failed2, out2 := runOverlayTest(repo, rel, []string{tf2}, "TestVerifReplaySearch")
+		if m, ok := rec["replay"].(map[string]interface{}); ok {
+			m["search"] = map[string]interface{}{"what": "all strings over {a ; = space quote CR LF} up to length 5", "ran": ran2, "reproduced": failed2 && strings.Contains(out2, "REPRODUCED"), "output": truncate(tailLines(out2, 8), 2000)}
+		}
+		if ran2 && failed2 && strings.Contains(out2, "REPRODUCED") {
+			return true
+		}
+	}
+	return false
+}
+
+func smtLit(v string) string {
+	if strings.HasPrefix(v, "-") {
+		return "(- " + v[1:] + ")"
+	}
+	return v
 }
